@@ -390,7 +390,7 @@ FAMILIES["endcalls"] = {"project": end_projection, "features": runner_features(1
                         "oracle": end_oracle, "shrink_ok": runner_shrink_ok}
 
 PROPERTIES["C01"] = {
-    "families": [("flow", 260, 6000)],
+    "families": [("flow", 260, 6000), ("indent", 300, 8000)],
     "rule": "random dialogues (1-4 nodes, options/if nested to depth 4, jumps by name and by expression, stop, "
             "set/declare/call/commands, duplicate titles, 1-3 readers) printed under a random layout, driven along a "
             "random valid choice path (junk arguments whenever no option group is waiting); distinct by (AST, ops); "
@@ -461,20 +461,25 @@ PROPERTIES["C03"] = {
     "assumptions": [],
 }
 PROPERTIES["C06"] = {
-    "families": [("faults", 400, 8000)],
+    "families": [("faults", 400, 8000), ("bridge", 800, 30000)],
     "rule": "valid scripts seeded with every fault class (ill-typed operands, unknown variables/functions/nodes/commands, "
             "null, value-less functions, failing functions, dice/random_range/round_places out of domain incl. 0, "
             "negatives, 1e30, NaN) at random depths; only the outcome class of each Next is compared (element/end/"
             "error/waiting/panic). Non-trivial: nesting depth >= 1 and >= 4 Next calls. Scripts on which the model "
-            "runs out of fuel (non-yielding jump cycles, known finding D7) are not executed.",
+            "runs out of fuel (non-yielding jump cycles, known finding D7) are not executed. bridge: host functions and "
+            "commands of every accepted signature (error results by value - structs and value kinds with an Error method - "
+            "included) called with fitting and unfitting arguments: a fault of the call is an error, never a panic.",
     "assumptions": ["choices are in range whenever an option group is waiting (adaptive generation)"],
 }
 PROPERTIES["C07"] = {
-    "families": [("snap", 300, 6000)],
+    "families": [("snap", 300, 6000), ("convcmds", 120, 3000)],
     "rule": "two runners of one script; random interleaving of Next, host writes, Snapshot into slots, re-reading OLD "
             "snapshot objects after further steps (exposes shared maps), RestoreAt of any slot into either runner in "
             "whatever state it is (mid-node, waiting for a choice, waiting for a command, ended), GetValues; compared: "
-            "traces, snapshot contents at every read, storer call logs. Non-trivial: depth >= 1 and >= 4 Next calls.",
+            "traces, snapshot contents at every read, storer call logs. Non-trivial: depth >= 1 and >= 4 Next calls. "
+            "convcmds: commands registered through ConvertAndAddCommand (void / error / channel results), snapshots and "
+            "restores while such a command is pending - the abandoned call is released afterwards and must not be taken for "
+            "the completion of a later call - and re-execution of the same command by the restored runner.",
     "assumptions": ["scripts of this family draw no random numbers (neither RNG nor host state is part of a snapshot)"],
 }
 # ------------------------------------------------------------------ waits (C10, real timers)
@@ -1058,13 +1063,13 @@ def load_shrink(case):
         return out      # inputs of more than a megabyte are reported as they are
     if len(rs) > 1:
         for r in drop_each(rs):
-            out.append([case[0], case[1], r])
+            out.append([case[0], case[1], r] + case[3:])
     for i, r in enumerate(rs):
         text = bytes(r)
         lines = text.split(b"\n")
         for j in range(len(lines)):
             t = b"\n".join(lines[:j] + lines[j + 1:])
-            out.append([case[0], case[1], rs[:i] + [list(t)] + rs[i + 1:]])
+            out.append([case[0], case[1], rs[:i] + [list(t)] + rs[i + 1:]] + case[3:])
             if len(out) > 120:
                 return out
     return out
@@ -1166,6 +1171,10 @@ def concurrent_oracle(case, obs, exp):
         for i, r in enumerate(obs[1:]):
             if tag(r) == "panic":
                 return "violation", "goroutine %d panicked" % i
+            if tag(r) == "hammer-differs":
+                return "violation", "a runner hammering the built-ins concurrently does not produce its solo trace: %s" % str(r[2])[:200]
+            if tag(r) == "starved":
+                return "violation", "a runner whose command returns at once never got past it while %d other runners had a command in flight: %s" % (r[1], str(r[2])[:200])
         pe = sexp.parse(concurrent_projection(sexp.dump(exp)))
         po = sexp.parse(concurrent_projection(sexp.dump(obs)))
         for i, (a, b) in enumerate(zip(pe, po)):
